@@ -32,6 +32,7 @@ type op38 struct {
 
 type sys38 struct {
 	cfg      *sysConfig
+	pool     *vmPool
 	genesis  *world
 	dsc      []byte // address of the delegation contract
 	actors   [][]byte
@@ -103,12 +104,13 @@ func newSys38(cfg *sysConfig, nActors int, maxEpoch uint32, rewards []int64) *sy
 		panic("delegation contract has no storage after creation")
 	}
 	y.genesis = w
+	y.pool = &vmPool{cfg: cfg}
 	return y
 }
 
 func (y *sys38) init() *st38 {
 	w := y.genesis.clone()
-	return &st38{y: y, v: newSysVM(y.cfg, w), undelegated: new(big.Int), withdrawn: new(big.Int), received: new(big.Int), paid: new(big.Int)}
+	return &st38{y: y, v: y.pool.get(w), undelegated: new(big.Int), withdrawn: new(big.Int), received: new(big.Int), paid: new(big.Int)}
 }
 
 func (s *st38) delegator(a int) *ssc.DelegatorData {
@@ -431,6 +433,7 @@ func runC38(c *mc.Ctx) {
 			Key:        func(s *st38) string { return s.key() },
 			Nontrivial: func(s *st38) string { return s.nt },
 			Outcome:    func(s *st38) string { return s.last },
+			Close:      func(s *st38) { y.pool.put(s.v); s.v = nil },
 		}, depth)
 		c.Set("states["+y.cfg.name+"]", st.States)
 		c.Set("transitions["+y.cfg.name+"]", st.Transitions)
